@@ -202,6 +202,11 @@ func (e *Exec) step(st *State, fr *Frame, ins ssa.Instruction) []*State {
 		}
 		return res
 	case *ssa.Go:
+		if e.conc == nil && e.cfg["go"] == "ignore" {
+			// harness directive: goroutines spawned on this path are irrelevant to the obligations and not run
+			e.stubsUsed["go statement ignored at "+site] = true
+			return []*State{st}
+		}
 		if e.conc == nil {
 			fail("go statement in sequential mode at %s", site)
 		}
@@ -876,8 +881,14 @@ func (e *Exec) nextOp(st *State, fr *Frame, x *ssa.Next, site string) []*State {
 	p := e.eval(st, fr, x.Iter).(Ptr)
 	it := e.objContent(st, p.Obj).(*IterData)
 	tup := x.Type().(*types.Tuple)
+	zeroOr := func(t types.Type) Value {
+		if b, ok := t.(*types.Basic); ok && b.Kind() == types.Invalid {
+			return nil // component not used by the loop
+		}
+		return e.zero(t)
+	}
 	if it.Pos >= len(it.Keys) {
-		fr.Env[x] = &Struct{[]Value{False, e.zero(tup.At(1).Type()), e.zero(tup.At(2).Type())}}
+		fr.Env[x] = &Struct{[]Value{False, zeroOr(tup.At(1).Type()), zeroOr(tup.At(2).Type())}}
 		return []*State{st}
 	}
 	k, v := it.Keys[it.Pos], it.Vals[it.Pos]
